@@ -26,6 +26,7 @@ type C02Case struct {
 func genC02(t *rapid.T) C02Case {
 	cfg := kit.DefaultTreeGen()
 	cfg.CorruptPct = 3
+	cfg.ExtraCorruptions = []string{"timestamp-future"}
 	cfg.BadIntentPct = 2
 	cfg.SharedPct = 30
 	cfg.ForkPct = 25
